@@ -24,7 +24,13 @@ type Read struct {
 	AddFirst bool `json:"add_first"` // AddDependency before reading (required for strobe slots)
 	// SkipRuns: the read is left out on runs r with r%4 in this set (dependencies that come and go)
 	SkipRuns []int `json:"skip_runs,omitempty"`
+	// SubCtx: the dependency is registered through a context derived from the run's context:
+	// "cancelled" (a sub-context the computation has already cancelled itself, the shape of an
+	// errgroup context after Wait), "timeout" (WithTimeout, cancelled right after), "value"
+	SubCtx string `json:"sub_ctx,omitempty"`
 }
+
+type subCtxKey struct{}
 
 type Child struct {
 	Key      int     `json:"key"`
@@ -164,6 +170,18 @@ func (m *Machine) write(i int) {
 
 func (m *Machine) read(ctx context.Context, rd Read, seen map[int]int, rn *runner, run int, idx int) {
 	s := m.slots[rd.Slot%len(m.slots)]
+	switch rd.SubCtx {
+	case "cancelled":
+		sub, cancel := context.WithCancel(ctx)
+		cancel()
+		ctx = sub
+	case "timeout":
+		sub, cancel := context.WithTimeout(ctx, time.Hour)
+		defer cancel()
+		ctx = sub
+	case "value":
+		ctx = context.WithValue(ctx, subCtxKey{}, idx)
+	}
 	fireMid := func() {
 		for _, f := range rn.comp.Fire {
 			if f.Run == run && f.At == idx && f.Mid {
@@ -580,6 +598,9 @@ func genReads(t *rapid.T, nslots int, max int) []Read {
 		rd := Read{Slot: rapid.IntRange(0, nslots-1).Draw(t, "slot"), AddFirst: rapid.Bool().Draw(t, "addfirst")}
 		if rapid.IntRange(0, 3).Draw(t, "dynread") == 0 {
 			rd.SkipRuns = rapid.SliceOfNDistinct(rapid.IntRange(0, 3), 1, 2, rapid.ID[int]).Draw(t, "readskips")
+		}
+		if rapid.IntRange(0, 4).Draw(t, "subctx") == 0 {
+			rd.SubCtx = rapid.SampledFrom([]string{"cancelled", "timeout", "value"}).Draw(t, "subctxkind")
 		}
 		out = append(out, rd)
 	}
